@@ -266,8 +266,15 @@ def operand_tokens(rng, spec, labels, consts, first, hot=()):
     if pool and c < 0.6:
         name = rng.choice(list(hot)) if hot and rng.random() < 0.4 else rng.choice(pool)
         toks = name_tokens(name, first)
-        if rng.random() < 0.25:
+        c3 = rng.random()
+        if c3 < 0.25:
             toks += [tok("op", rng.choice(["+", "-", "*", "&"]), True), num_tok(rng, rng.randrange(0, 5), True, "dec")]
+        elif c3 < 0.33:
+            # a slice of the symbol's value: the operand itself contains `[', `:' and `]' - whatever the rule writes
+            # around or after the parameter (`[{a}]', `{a}: ...') must not cut it short
+            hi = rng.choice([7, 7, 3, 15])
+            toks += [tok("op", "[", False), num_tok(rng, hi, False, "dec"), tok("op", ":", False), num_tok(rng, rng.choice([0, 0, 4]) if hi > 3 else 0, False, "dec"),
+                     tok("op", "]", False)]
         return toks
     if c < 0.75:
         return [tok("id", "$", first)]
